@@ -658,10 +658,15 @@ def main():
             for key, msg in probs:
                 chk.violation("xclose:" + key, "C11 %s [close() from a second thread while a request is blocked; peer %s]" % (
                     msg, "stuck in a handler" if stuck else "slow"), {"workload": "xclose", "peer_stuck": stuck, "timeout": to})
+    nval = 0
     for (w, frag, to, orders, kinds, stride, sa) in plan:
         tr, npos = campaign(chk, w, frag, to, orders, kinds, stride, b_serve_all=sa)
         traces += tr
         total_pos += npos
+        while len(traces) >= 1500:          # validated as they accumulate: the thorough tier records tens of thousands of runs
+            validate(chk, traces[:1500], "fault runs %d.." % nval)
+            nval += 1500
+            del traces[:1500]
         gc.collect()
     chk.cov["fault_positions"] = total_pos
     real_pipe_runs(chk)
@@ -688,7 +693,7 @@ def main():
     for cfgname in (("2", "2bg") if not chk.thorough else ("2", "2bg", "3", "3bg", "1bg")):
         svc.explore_eof(chk, cfgname, on_bad, 60 if not chk.thorough else 600)
     for i in range(0, len(traces), 1500):
-        validate(chk, traces[i:i + 1500], "fault runs %d.." % i)
+        validate(chk, traces[i:i + 1500], "fault runs %d.." % (nval + i))
     chk.assumptions += [
         "faults are socket-level: recv raising ECONNRESET or returning end-of-stream, send raising EPIPE, at one transport "
         "call per run (fragmented runs put them inside headers and bodies); poll() itself is not made to fail",
